@@ -480,12 +480,22 @@ def main() -> int:
     notes: list[str] = []
     known_status: dict[str, str] = {}
 
-    # 0. deterministic replay of listed findings (fresh process each)
-    for entry in known:
+    # 0. deterministic replay of listed findings (fresh process each, several at a time)
+    from concurrent.futures import ThreadPoolExecutor
+
+    def _replay(entry):
         try:
-            r = replay_in_subprocess(prop, entry['engine'], entry['case'])
+            return replay_in_subprocess(prop, entry['engine'], entry['case'])
         except Exception as exc:  # noqa: BLE001
-            print(f'HARNESS-ERROR property={prop} replay of finding {entry["id"]}: {exc}')
+            return exc
+
+    with ThreadPoolExecutor(max_workers=8) as pool:
+        replayed = list(pool.map(_replay, known + fixed))
+    replay_of = {id(e): r for e, r in zip(known + fixed, replayed)}
+    for entry in known:
+        r = replay_of[id(entry)]
+        if isinstance(r, Exception):
+            print(f'HARNESS-ERROR property={prop} replay of finding {entry["id"]}: {r}')
             return 2
         if r['violation'] and sig_matches(entry, r['signature']):
             lines.append(f'KNOWN-FINDING: property={prop} {entry["id"]}: {entry["what"]}')
@@ -497,10 +507,9 @@ def main() -> int:
         else:
             known_status[entry['id']] = 'listed finding no longer reproduces'
     for entry in fixed:
-        try:
-            r = replay_in_subprocess(prop, entry['engine'], entry['case'])
-        except Exception as exc:  # noqa: BLE001
-            print(f'HARNESS-ERROR property={prop} replay of fixed finding {entry["id"]}: {exc}')
+        r = replay_of[id(entry)]
+        if isinstance(r, Exception):
+            print(f'HARNESS-ERROR property={prop} replay of fixed finding {entry["id"]}: {r}')
             return 2
         if r['violation']:
             violations.append({'signature': r['signature'], 'message': r['message'], 'engine': entry['engine'], 'case': entry['case']})
